@@ -1,6 +1,7 @@
 package main
 
 import (
+	"go/types"
 	"encoding/json"
 	"flag"
 	"fmt"
@@ -198,6 +199,40 @@ func runProperty(p *vc.Prog, id string, claims *PropClaim, known []KnownFinding,
 		present[fn.String()] = true
 		out.functions = append(out.functions, fn.String())
 	}
+	// a type whose methods carry stream / refinement contracts (dependencies call them, also through optional interfaces
+	// such as io.StringWriter or io.ReaderFrom): every method declared on that type must be under contract, otherwise a
+	// dependency can change the type's state through code no obligation covers
+	{
+		streamTypes := map[*types.Named]string{}
+		for _, fn := range fns {
+			ct := p.ContractFor(fn)
+			if ct == nil || (len(ct.Stream) == 0 && ct.Implements == "") || fn.Signature.Recv() == nil {
+				continue
+			}
+			if nt := recvNamed(fn.Signature.Recv().Type()); nt != nil {
+				streamTypes[nt] = fn.String()
+			}
+		}
+		var names []string
+		for name := range p.Funcs {
+			names = append(names, name)
+		}
+		sort.Strings(names)
+		for _, name := range names {
+			m := p.Funcs[name]
+			if m.Signature.Recv() == nil || len(m.Blocks) == 0 || m.Synthetic != "" {
+				continue
+			}
+			nt := recvNamed(m.Signature.Recv().Type())
+			if nt == nil {
+				continue
+			}
+			if by, ok := streamTypes[nt]; ok && p.ContractFor(m) == nil {
+				out.violations = append(out.violations, violation{Func: m.String(), Obl: "contract", Status: "uncontracted-method",
+					Why: "method of a type whose state carries a stream invariant (see " + shortName(by) + ") has no contract; callers in dependencies may reach it through an optional interface"})
+			}
+		}
+	}
 	for _, lm := range lemmas {
 		fv := p.VerifyLemma(lm)
 		fvs = append(fvs, fv)
@@ -374,6 +409,14 @@ func runProperty(p *vc.Prog, id string, claims *PropClaim, known []KnownFinding,
 		}
 	}
 	return out
+}
+
+func recvNamed(t types.Type) *types.Named {
+	if pt, ok := types.Unalias(t).(*types.Pointer); ok {
+		t = pt.Elem()
+	}
+	nt, _ := types.Unalias(t).(*types.Named)
+	return nt
 }
 
 func shortName(s string) string {
